@@ -24,6 +24,11 @@ import (
 
 const maxParamCallers = 12
 
+// descriptors longer than this are replaced by a hash (never reached on this code base: the longest is reported
+// in the evidence; substring queries on descriptors rely on that)
+var descHashLimit = 2000000
+var descMaxSeen = 0
+
 // Resolve returns the terminal origins of v.
 func (P *Program) Resolve(v ssa.Value) []ssa.Value { return P.resolve(v, false) }
 
@@ -399,7 +404,10 @@ func (P *Program) desc(v ssa.Value, deep bool) string {
 	} else {
 		s = "{" + strings.Join(alts, "|") + "}"
 	}
-	if len(s) > 1500 {
+	if len(s) > descMaxSeen {
+		descMaxSeen = len(s)
+	}
+	if len(s) > descHashLimit {
 		s = fmt.Sprintf("h%x<%s...>", sha1.Sum([]byte(s)), s[:200])
 	}
 	delete(P.descBusy, k)
@@ -495,6 +503,9 @@ func (P *Program) termDesc(v ssa.Value, deep bool) string {
 	case *ssa.MakeClosure:
 		return "closure(" + FuncName(x.Fn.(*ssa.Function)) + ")"
 	case *ssa.Call:
+		if x.Call.IsInvoke() {
+			return "call(" + P.calleeName(x.Common()) + "; " + P.descArgs(append([]ssa.Value{x.Call.Value}, x.Call.Args...), deep) + ")"
+		}
 		return "call(" + P.calleeName(x.Common()) + "; " + P.descArgs(x.Common().Args, deep) + ")"
 	case *ssa.BinOp:
 		return "binop(" + x.Op.String() + "; " + P.desc(x.X, deep) + ", " + P.desc(x.Y, deep) + ")"
@@ -503,7 +514,7 @@ func (P *Program) termDesc(v ssa.Value, deep bool) string {
 			switch a := x.X.(type) {
 			case *ssa.FieldAddr:
 				st := deref(a.X.Type()).Underlying().(*types.Struct)
-				return "field(" + P.desc(a.X, deep) + "." + typeStr(deref(a.X.Type())) + "." + st.Field(a.Field).Name() + ")"
+				return "field(" + P.descBase(a.X, deep) + "." + typeStr(deref(a.X.Type())) + "." + st.Field(a.Field).Name() + ")"
 			case *ssa.IndexAddr:
 				return "elem" + idxTag(a.Index) + "(" + P.desc(a.X, deep) + ")"
 			case *ssa.Global:
@@ -514,7 +525,7 @@ func (P *Program) termDesc(v ssa.Value, deep bool) string {
 		return "unop(" + x.Op.String() + "; " + P.desc(x.X, deep) + ")"
 	case *ssa.Field:
 		st := x.X.Type().Underlying().(*types.Struct)
-		return "field(" + P.desc(x.X, deep) + "." + typeStr(x.X.Type()) + "." + st.Field(x.Field).Name() + ")"
+		return "field(" + P.descBase(x.X, deep) + "." + typeStr(x.X.Type()) + "." + st.Field(x.Field).Name() + ")"
 	case *ssa.FieldAddr:
 		st := deref(x.X.Type()).Underlying().(*types.Struct)
 		return "&field(" + P.desc(x.X, deep) + "." + typeStr(deref(x.X.Type())) + "." + st.Field(x.Field).Name() + ")"
@@ -525,6 +536,37 @@ func (P *Program) termDesc(v ssa.Value, deep bool) string {
 	case *ssa.Lookup:
 		return "lookup(" + P.desc(x.X, deep) + "; " + P.desc(x.Index, deep) + ")"
 	case *ssa.Slice:
+		if a, ok := x.X.(*ssa.Alloc); ok {
+			// slice literal / varargs: describe by its elements
+			type ent struct {
+				idx string
+				d   string
+			}
+			var es []ent
+			if refs := a.Referrers(); refs != nil {
+				for _, rr := range *refs {
+					ia, ok := rr.(*ssa.IndexAddr)
+					if !ok {
+						continue
+					}
+					if irefs := ia.Referrers(); irefs != nil {
+						for _, st := range *irefs {
+							if s, ok := st.(*ssa.Store); ok && s.Addr == ia {
+								es = append(es, ent{idxTag(ia.Index), P.desc(s.Val, deep)})
+							}
+						}
+					}
+				}
+			}
+			if len(es) > 0 {
+				sort.Slice(es, func(i, j int) bool { return es[i].idx < es[j].idx })
+				var parts []string
+				for _, e := range es {
+					parts = append(parts, e.d)
+				}
+				return "lit[" + strings.Join(parts, ", ") + "]"
+			}
+		}
 		return "slice(" + P.desc(x.X, deep) + ")"
 	case *ssa.TypeAssert:
 		return "typeassert(" + P.desc(x.X, deep) + "; " + typeStr(x.AssertedType) + ")"
@@ -705,4 +747,31 @@ func (P *Program) litKey(l Lit) string {
 		return P.Desc(l.Val)
 	}
 	return l.Key
+}
+
+// descBase describes the object a field is read from. A local struct variable that only ever receives whole
+// struct values (`for _, annot := range list`, `x := *p`) is transparent: the field is described as a field of
+// those values.
+func (P *Program) descBase(v ssa.Value, deep bool) string {
+	if cell := P.cellOf(v); cell != nil && cell.Comment != "complit" {
+		if _, isStruct := deref(cell.Type()).Underlying().(*types.Struct); isStruct {
+			vals, _, escaped := P.CellStores(cell)
+			if len(vals) > 0 && !escaped {
+				set := map[string]bool{}
+				for _, x := range vals {
+					set[P.desc(x, deep)] = true
+				}
+				var alts []string
+				for s := range set {
+					alts = append(alts, s)
+				}
+				sort.Strings(alts)
+				if len(alts) == 1 {
+					return alts[0]
+				}
+				return "{" + strings.Join(alts, "|") + "}"
+			}
+		}
+	}
+	return P.desc(v, deep)
 }
